@@ -19,6 +19,7 @@ import GocoinV.Proofs.C15Bch3
 import GocoinV.Proofs.C15Reuse
 import GocoinV.Proofs.C15Sched
 import GocoinV.Proofs.C15Str2
+import GocoinV.Proofs.C15Str3
 namespace GocoinV.Props.C15
 open GocoinV Bech32
 
@@ -90,13 +91,51 @@ theorem b58_decode_encode (a : Bytes) (h : a ≠ []) : Base58.decode (Base58.enc
 example : Base58.decode (Base58.encode [0, 0, 1, 2, 255]) = some [0, 0, 1, 2, 255] :=
   b58_decode_encode _ (by simp)
 
-/-- Bech32 / Bech32m "create then verify" for EVERY human-readable part, data part and variant: whatever
-    `bech32.Encode` (model, with the checksum step and tables regenerated from the Go source) produces for
-    a non-empty hrp, `bech32.Decode` reads back as the same (hrp, data, variant). The proof goes through
-    the GF(2)-linearity of the generated polymod step (Proofs/C15Bech32*.lean). -/
-theorem bech32_decode_encode (hrp data s : Bytes) (m : Bool) (hne : hrp ≠ [])
+/-- Bech32 / Bech32m "create then verify" for EVERY human-readable part (any bytes, the empty one included), data
+    part and variant: whatever `bech32.Encode` (model, with the checksum step and tables regenerated from the Go
+    source) produces, `bech32.Decode` reads back as the same (hrp, data, variant). No side condition on the hrp any
+    more: since /repo's fix aaaa0fae `Encode` produces nothing for the empty hrp (`bech32_empty_hrp_refused`); before
+    it this theorem needed `hrp ≠ []` and was false without. The proof goes through the GF(2)-linearity of the
+    generated polymod step (Proofs/C15Bech32*.lean). -/
+theorem bech32_decode_encode (hrp data s : Bytes) (m : Bool)
     (h : Bech32.encode hrp data m = some s) : Bech32.decode s = some (hrp, data, m) :=
-  Bech32.decode_encode hrp data s m hne h
+  Bech32.decode_encode hrp data s m h
+
+/-- Regression statement of the fixed finding `bech32-encode-empty-hrp`: `bech32.Encode` and `SegwitEncode` refuse the
+    empty human-readable part for every data / version / program / variant (BIP173: 1 to 83 characters). Before the
+    fix `Encode("", [0,1,2], false)` was "1qpzceglat", which `Decode` refuses — the round trip above failed there. -/
+theorem bech32_empty_hrp_refused (data prog : Bytes) (m : Bool) (v : Nat) :
+    Bech32.encode [] data m = none ∧ segwitEncode [] v prog = none := by
+  refine ⟨Bech32.encode_nil data m, ?_⟩
+  cases h : segwitEncode [] v prog with
+  | none => rfl
+  | some s =>
+    obtain ⟨_, _, _, _, d, _, he⟩ := Bech32.segwitEncode_some h
+    rw [Bech32.encode_nil] at he; cases he
+
+/-- What `bech32.Encode` takes, stated outright (the harness' own `encodable` predicate, BIP173): it produces a string
+    EXACTLY when the human-readable part is non-empty, all its bytes are in 33..126 and none is an upper-case letter
+    (so any byte ≥ 0x80 — any non-ASCII character typed into an hrp — is refused), every data symbol is < 32, and
+    hrp + 1 + data + 6 ≤ 90 characters. -/
+theorem bech32_encode_accept_iff (hrp data : Bytes) (m : Bool) :
+    (Bech32.encode hrp data m).isSome = true ↔
+      hrp ≠ [] ∧ (∀ c ∈ hrp, 33 ≤ c.toNat ∧ c.toNat ≤ 126 ∧ isUpper c = false) ∧ (∀ x ∈ data, x.toNat ≤ 31) ∧
+        hrp.length + 7 + data.length ≤ 90 :=
+  Bech32Str.encode_isSome_iff hrp data m
+
+/-- `bech32.Encode` AS IT IS WRITTEN (`Bech32Str.encodeSrc`: both loops over the human-readable part are a `range`
+    over the STRING, i.e. over the first bytes of its UTF-8 code points, and the length test uses the loop variable —
+    last visited position + 1 — not `len(hrp)`) computes, for EVERY hrp (any byte string), data and variant, exactly
+    the bytewise `Bech32.encode` all theorems of this file are about: the first loop refuses a visited byte > 126, and
+    a byte that `range` skips always follows such a byte. -/
+theorem bech32_encode_as_written_is_bytewise (hrp data : Bytes) (m : Bool) :
+    Bech32Str.encodeSrc hrp data m = Bech32.encode hrp data m :=
+  Bech32Str.encodeSrc_eq hrp data m
+
+/-- sanity: a 2-byte code point in the hrp ("é1…": c3 a9) is refused at its first byte by both readings, and an ASCII
+    hrp is encoded -/
+example : Bech32Str.encodeSrc [0xc3, 0xa9] [0] false = none ∧ Bech32.encode [0xc3, 0xa9] [0] false = none ∧
+    (Bech32Str.encodeSrc [98, 99] [0, 14, 20, 15] false).isSome = true := by decide +kernel
 
 /-- non-vacuity: the encoder does produce something for a usual input -/
 example : (Bech32.encode [98, 99] [0, 14, 20, 15] false).isSome = true := by decide +kernel
@@ -125,14 +164,14 @@ theorem convertBits_pad_facts (prog d : Bytes) (h : convertBits 5 prog 8 true = 
 /-- non-vacuity of `convertBits_pad_facts` on a 3-byte input -/
 example : convertBits 5 [0xff, 0x00, 0x81] 8 true = some [31, 28, 0, 8, 2] := by decide +kernel
 
-/-- Segwit address round trip, encode then decode, for EVERY non-empty human-readable part (in particular
+/-- Segwit address round trip, encode then decode, for EVERY human-readable part (in particular
     "bc" and "tb"), every witness version and every program: whenever `SegwitEncode` produces a string
     (it does so exactly for version ≤ 16, program length 2..40, and 20/32 for version 0 — see
     `segwitEncode_some`), `SegwitDecode` with the same hrp accepts that string and returns the same
     version and program. Bech32 is used for version 0 and Bech32m for versions 1..16 on both sides. -/
-theorem segwit_decode_encode (hrp prog s : Bytes) (v : Nat) (hne : hrp ≠ [])
+theorem segwit_decode_encode (hrp prog s : Bytes) (v : Nat)
     (h : segwitEncode hrp v prog = some s) : segwitDecode hrp s = .ok (v, prog) :=
-  Bech32.segwit_decode_encode hrp prog s v hne h
+  Bech32.segwit_decode_encode hrp prog s v h
 
 /-- non-vacuity: a version-1 (taproot-style) 32-byte program on "bc" is encoded -/
 example : (segwitEncode [98, 99] 1 (List.replicate 32 7)).isSome = true := by decide +kernel
@@ -293,8 +332,15 @@ theorem addr_b58_reencode (H : Addr.Hashes) (hs : Bytes) (hlen : 4 ≤ hs.length
   simp only [Addr.toString, h21, hc, List.take_append_drop]
   rw [Base58.encode_decode hs dec hd]
 
-/-- non-vacuity: "1111" satisfies the side conditions (shown above); acceptance needs a hash, see the harness -/
-example : 4 ≤ ([49, 49, 49, 49] : Bytes).length := by simp
+/-- non-vacuity: the hypotheses are satisfiable — the accepted witness shown after `b58check_accept_iff` (toy hash
+    "32 zero bytes", payload 00 ‖ 20×01 ‖ 00000000) has ≥ 4 bytes, starts with '1' (no segwit prefix) and decodes
+    to a version-0 `.b58` address whose re-encoding is the typed string -/
+example : (match Addr.fromString { sha2sum := fun _ => List.replicate 32 0, hash160 := fun _ => List.replicate 20 0 }
+      (Base58.encode (0 :: (List.replicate 20 1 ++ [0, 0, 0, 0]))) with
+    | .ok (.b58 v h _) => v.toNat == 0 && h == List.replicate 20 1 &&
+        Addr.toString { sha2sum := fun _ => List.replicate 32 0, hash160 := fun _ => List.replicate 20 0 } (.b58 v h none)
+          == some (Base58.encode (0 :: (List.replicate 20 1 ++ [0, 0, 0, 0])))
+    | _ => false) = true := by decide +kernel
 
 /-! ### WIF private-key strings (lib/btc/wallet.go) -/
 
@@ -432,18 +478,24 @@ example : Bech32.decode [65, 49, 50, 85, 69, 76, 53, 76] = some ([97], [], false
     Bech32.decode [97, 49, 50, 117, 101, 108, 52, 108] = none ∧
     Bech32.decode [97, 49, 50, 117, 101, 55, 53, 108] = none := by decide +kernel
 
-/-- the same at the segwit level: two strings accepted by `SegwitDecode` for the same hrp with the same witness
-    version, of equal length, at case-insensitive distance ≤ 2, are equal up to case — so a 1- or 2-character
-    typo in the program or checksum part of an address is never accepted (as any program). -/
-theorem segwit_detects_le2_substitutions (hrp s s' p p' : Bytes) (v : Nat)
-    (h : segwitDecode hrp s = .ok (v, p)) (h' : segwitDecode hrp s' = .ok (v, p'))
+/-- the same at the segwit level: two strings accepted by `SegwitDecode` for the same hrp whose witness versions
+    are both 0 or both non-zero (`v = 0 ↔ v' = 0`: the versions themselves may differ — a typo in the version symbol
+    between two of the versions 1..16 is covered), of equal length, at case-insensitive distance ≤ 2, are equal up
+    to case — so a 1- or 2-character typo anywhere after the separator of an address is never accepted (as any
+    version/program), unless it changes the version symbol between 0 and non-0 (other checksum variant). -/
+theorem segwit_detects_le2_substitutions (hrp s s' p p' : Bytes) (v v' : Nat) (hvv : v = 0 ↔ v' = 0)
+    (h : segwitDecode hrp s = .ok (v, p)) (h' : segwitDecode hrp s' = .ok (v', p'))
     (hlen : s.length = s'.length)
     (hd : Bech32.hamming (s.map Addr.asciiLower) (s'.map Addr.asciiLower) ≤ 2) :
     s.map Addr.asciiLower = s'.map Addr.asciiLower := by
   obtain ⟨_, _, _, _, d, m, hdec, hm⟩ := segwitDecode_sound hrp s v p h
-  obtain ⟨_, _, _, _, d', m', hdec', hm'⟩ := segwitDecode_sound hrp s' v p' h'
+  obtain ⟨_, _, _, _, d', m', hdec', hm'⟩ := segwitDecode_sound hrp s' v' p' h'
   have : m = m' := by
-    cases m <;> cases m' <;> simp_all
+    by_cases hz : v = 0
+    · have hz' := hvv.mp hz
+      cases m <;> cases m' <;> simp_all
+    · have hz' : ¬ v' = 0 := fun e => hz (hvv.mpr e)
+      cases m <;> cases m' <;> simp_all
   subst this
   exact Bech32.detect_le2 s s' hrp d d' m hdec hdec' hlen hd
 
@@ -480,19 +532,23 @@ theorem bech32_detects_le3_substitutions (s s' hrp d d' : Bytes) (m : Bool)
 example : Bech32.decode [97, 49, 50, 117, 101, 108, 53, 108] = some ([97], [], false) ∧
     Bech32.hamming [97, 49, 50, 117, 101, 108, 53, 108] [97, 49, 50, 117, 101, 108, 53, 108] ≤ 3 := by decide +kernel
 
-/-- segwit level, ≤ 3: two strings accepted by `SegwitDecode` for the same hrp with the same witness version, of
-    equal length, at case-insensitive distance ≤ 3 are equal up to case. Since the witness version fixes the
-    checksum variant, the only excluded typos are those that change the version symbol, the separator
-    position or the length. -/
-theorem segwit_detects_le3_substitutions (hrp s s' p p' : Bytes) (v : Nat)
-    (h : segwitDecode hrp s = .ok (v, p)) (h' : segwitDecode hrp s' = .ok (v, p'))
+/-- segwit level, ≤ 3: two strings accepted by `SegwitDecode` for the same hrp with witness versions that are both 0
+    or both non-zero (they need not be equal), of equal length, at case-insensitive distance ≤ 3 are equal up to
+    case. Since "version = 0" fixes the checksum variant, the only excluded typos are those that change the
+    version symbol between 0 and non-0, the separator position or the length. -/
+theorem segwit_detects_le3_substitutions (hrp s s' p p' : Bytes) (v v' : Nat) (hvv : v = 0 ↔ v' = 0)
+    (h : segwitDecode hrp s = .ok (v, p)) (h' : segwitDecode hrp s' = .ok (v', p'))
     (hlen : s.length = s'.length)
     (hd : Bech32.hamming (s.map Addr.asciiLower) (s'.map Addr.asciiLower) ≤ 3) :
     s.map Addr.asciiLower = s'.map Addr.asciiLower := by
   obtain ⟨_, _, _, _, d, m, hdec, hm⟩ := segwitDecode_sound hrp s v p h
-  obtain ⟨_, _, _, _, d', m', hdec', hm'⟩ := segwitDecode_sound hrp s' v p' h'
+  obtain ⟨_, _, _, _, d', m', hdec', hm'⟩ := segwitDecode_sound hrp s' v' p' h'
   have : m = m' := by
-    cases m <;> cases m' <;> simp_all
+    by_cases hz : v = 0
+    · have hz' := hvv.mp hz
+      cases m <;> cases m' <;> simp_all
+    · have hz' : ¬ v' = 0 := fun e => hz (hvv.mpr e)
+      cases m <;> cases m' <;> simp_all
   subst this
   exact Bech32.detect_gen 3 Bech32.pf_detect3 s s' hrp d d' m hdec hdec' hlen hd
 
@@ -586,9 +642,19 @@ objects — so the models describe the code only while the codec functions keep 
     NewAddrFromPkScript/Hash160/Pubkey, SegwitProg.String, Encodeb58, Decodeb58, DecodePrivateAddr,
     PrivateAddr.String, bech32.Encode/Decode/SegwitEncode/SegwitDecode; bounded at PublicFromPrivate) no use of a
     package-level variable writes it or hands it on as a reference — `b58set`, `bn0`, `bn58`, `charset_rev`
-    (`Gen.C15Shared.globalsRead`) are only read. A scratch value, cache or pooled buffer hoisted to package level
-    makes this list non-empty and the theorem false. -/
-theorem codec_writes_no_package_state : Gen.C15Shared.globalsWritten = [] := by decide
+    (`Gen.C15Shared.globalsRead`) are only read, and the REFERENCE-TYPED ones among them (`globalsReadRef`: slices,
+    maps, pointers, …, the variables through which a write could escape the classifier by aliasing) are PINNED here
+    to `b58set`, `bn0`, `bn58`: a new package-level slice, map, pointer or pool anywhere in the closure changes the
+    list and forces a look whatever the classifier thinks of its uses (a new read-only array or scalar, e.g. a
+    precomputed generator table, does not); a package-level variable used as
+    the key/value of `for k, v = range …` counts as written; and no package-level variable is the receiver of a
+    sync / sync/atomic method (`globalsSynchronised = []`: a sync.Pool, sync.Map, atomic.Value or mutex-guarded
+    cache IS state shared between callers; whether it is used correctly — e.g. a pooled buffer not handed out after
+    Put — is not analysed, so its mere presence breaks the theorem). A scratch value, cache, memo table, loop index
+    or pooled buffer hoisted to package level makes one of the three lists differ and the theorem false. -/
+theorem codec_writes_no_package_state :
+    Gen.C15Shared.globalsWritten = [] ∧ Gen.C15Shared.globalsSynchronised = [] ∧
+    Gen.C15Shared.globalsReadRef = ["btc.b58set", "btc.bn0", "btc.bn58"] := by decide
 
 /-- `Encodeb58` under ANY interleaving of any number of callers (step-level model `Base58Sched`: per digit one step
     "DivMod — quotient into the caller's `bn`, remainder into the destination operand" and one step "read the
@@ -633,22 +699,31 @@ theorem shared_remainder_not_schedule_independent :
 /-- SOURCE FACTS (regenerated on every run by go/cmd/gen_c15/strloop.go, same call closure as
     `codec_writes_no_package_state`): the codec reads a typed string BYTE BY BYTE. Nowhere in the closure is a code
     point taken from a string (value variable of a `range` over a string or `[]rune`, result of `utf8.DecodeRune*`,
-    element of a `[]rune`) converted to an 8/16-bit integer, masked or reduced modulo a small constant; and the only
-    code-point-aware library call is `strings.ToLower` on the 3-byte prefix in `NewAddrFromString` (no `EqualFold`,
-    `ToUpper`, `Map`, `TrimSpace`, `unicode.*`, `utf8.*` on the typed text). All models of C15 take a Go string as the
-    list of its bytes; these two lists are what makes that reading the code's. -/
+    element of a `[]rune`; also after conversion to any integer type, arithmetic, assignment to another variable,
+    being passed as an argument to a function of the two packages — parameters are followed to a fixpoint — or
+    returned by one) converted to an 8/16-bit integer, masked or reduced modulo a small constant; and the list of ALL
+    CALL SITES of code-point-aware library functions, with their argument expressions (identifiers normalised: p0 =
+    first parameter), is exactly `strings.ToLower(p0[:3])` in `NewAddrFromString` — a second call, or the same call
+    on the whole typed string, changes the list (no `EqualFold`, `ToUpper`, `Map`, `TrimSpace`, `unicode.*`, `utf8.*`
+    on the typed text). All models of C15 take a Go string as the list of its bytes; these two lists are what makes
+    that reading the code's. NOT seen by the extractor: code points carried through struct fields, slices other than
+    `[]rune`, channels, interfaces, closures stored in variables, or functions outside lib/btc and lib/others/bech32;
+    narrowing by arithmetic other than a conversion, `&` or `%` (e.g. subtracting 256). -/
 theorem codec_reads_typed_strings_bytewise :
-    Gen.C15Str.runeNarrowings = [] ∧ Gen.C15Str.unicodeCalls = ["btc.NewAddrFromString: strings.ToLower"] := by
+    Gen.C15Str.runeNarrowings = [] ∧
+    Gen.C15Str.unicodeCalls = ["btc.NewAddrFromString: strings.ToLower(p0[:3])"] := by
   decide
 
 /-- The digit loop of `Decodeb58` AS IT IS WRITTEN (`Base58Str.decodeSrc`: a `range` over the string visits the first
     byte of every UTF-8 code point, an invalid byte being a code point of width 1 — `Gen.C15Str.b58DecodeRangesString`;
     what is looked up there — `Gen.C15Str.b58DecodeLookup`: the byte `s[i]`) computes, for EVERY byte string, exactly
     the bytewise `Base58.decode` that all Base58 / address / WIF theorems of this file are about: the bytes `range`
-    skips follow a first byte ≥ 0xC2, which is in no alphabet. False as soon as the loop looks up the code point
-    narrowed to a byte (lookup = 1). -/
+    skips follow a first byte ≥ 0xC2, which is in no alphabet. Needs the regenerated lookup to be 0 (byte) or 2 (the
+    range's value variable used ONLY as a comparison operand, an index or a switch tag/case, i.e. at full width);
+    false as soon as the loop looks up the code point narrowed to a byte (1), and not provable when the value variable
+    is used in any way the extractor does not classify — handed to a callee, converted, stored (3, modelled as 1). -/
 theorem b58_decode_as_written_is_bytewise (s : Bytes) : Base58Str.decodeSrc s = Base58.decode s := by
-  have hl : Gen.C15Str.b58DecodeLookup ≠ 1 := by decide
+  have hl : Gen.C15Str.b58DecodeLookup = 0 ∨ Gen.C15Str.b58DecodeLookup = 2 := by decide
   exact Base58Str.decodeGo_eq _ _ hl s
 
 /-- "AN INVALID CHARACTER … IS REFUSED", for every character outside ASCII in whatever encoding: a typed string with a
@@ -697,8 +772,8 @@ theorem rune_narrowing_accepts_nonalphabet :
   --   Brute force over C(90,4)·31^4 ≈ 2.4·10^12 patterns is out of reach.
   -- OUTSIDE the distance theorems (≤ 2 and ≤ 3), by their hypotheses: (a) a corrupted string that is accepted under
   --   the OTHER checksum variant (Bech32 ↔ Bech32m, error syndrome = 1 xor 0x2bc830a3): at the `SegwitDecode`
-  --   level this needs the version symbol to change between 0 and non-0 as well, and the segwit theorems assume
-  --   the same version; (b) substitutions that put a '1' into the data part or remove the separator (the hrp then
+  --   level this needs the version symbol to change between 0 and non-0 as well, which is exactly what the
+  --   hypothesis `v = 0 ↔ v' = 0` of the segwit theorems excludes (two different non-zero versions are covered); (b) substitutions that put a '1' into the data part or remove the separator (the hrp then
   --   differs); (c) insertions / deletions (length differs). For all of these only uniqueness is proved
   --   (`segwit_encode_decode`: an accepted string is, up to case, THE encoding of what it decodes to, so a
   --   corrupted string is never silently accepted as the original destination); the ≤4-edit neighbourhood is
@@ -708,7 +783,15 @@ theorem rune_narrowing_accepts_nonalphabet :
   --   re-used object against the same call on a new object with the same exported fields), not by a theorem. The Go
   --   `SegwitProg.Version` is an int (negative values are outside the model, as for `segwitEncode`); `Pubkey`, `Extra`
   --   and `Owns()` (which may set `Pubkey`) are not part of `Obj` — neither method reads them.
-  -- CORRESPONDENCE ONLY (concurrent callers): the step-level model covers Encodeb58's digit loop; for the other codec
+  -- CORRESPONDENCE ONLY (concurrent callers): the step-level model covers Encodeb58's digit loop ONLY, and in the variant
+  --   the source has (`encodeRemShared = false`) its step function never reads the one shared cell the modeller gave it:
+  --   `concurrent_encodes_schedule_independent` is then independence BY CONSTRUCTION of the model; its content is "a
+  --   caller running alone returns Base58.encode within 2 steps per digit" plus the counter-model
+  --   `shared_remainder_not_schedule_independent` showing what the regenerated fact rules out. Every other sharing hazard
+  --   (any other variable, any other function) rests on the source facts of `codec_writes_no_package_state`, which do NOT
+  --   see: writes through unsafe / reflection / cgo, closures stored in variables and called later, state reached through
+  --   interface values, state inside other packages (hash objects, math/big internals, secp256k1 tables), data races on
+  --   variables that are only READ here but written elsewhere in the program. For the other codec
   --   functions "no shared writable state" is the regenerated fact `codec_writes_no_package_state` (an analysis of the
   --   source, not a semantics of Go's memory model) plus the harness stream `conc` (2..16 goroutines, each on its own
   --   inputs, every result compared with the reference). Hashing (sha256/ripemd160 objects are created per call) and
@@ -718,6 +801,10 @@ theorem rune_narrowing_accepts_nonalphabet :
   --   invalid bytes become U+FFFD, and no 2-byte code point plus one ASCII byte lower-cases to three ASCII bytes); the
   --   UTF-8 decoder `Base58Str.decodeRune` is tied to Go's `range` by oracle op `runes`; both are exercised by the harness
   --   stream unicode.go (aliases of alphabet characters in every family, at every decoder), not proved of Go.
+  -- (CLOSED: finding `bech32-encode-empty-hrp` — `Encode("", d, m)` returned "1" ++ d ++ checksum, which `Decode` refuses;
+  --   fixed in lib/others/bech32/bech32.go (aaaa0fae), now `bech32_empty_hrp_refused`, and `bech32_decode_encode` /
+  --   `segwit_decode_encode` lost their hypothesis `hrp ≠ []`. STILL outside the model: a NEGATIVE `SegwitProg.Version` /
+  --   `witver` (Go int; `byte(witver)` wraps) — `segwitEncode` takes a Nat.)
   -- (CLOSED: finding `wif-flag-byte-unchecked` — WIF decode → re-encode was false of the code for a 38-byte payload
   --   whose flag byte is not 01; fixed in lib/btc/wallet.go, now `wif_flag_byte_refused` / `wif_encode_decode`.)
 -/
